@@ -12,3 +12,4 @@ open GoRedis
 #print axioms C03_zadd_flags_terminate
 #print axioms C03_no_read_ahead
 #print axioms GoRedis.inext_frame
+#print axioms C03_source_conn_loop_is_the_modelled_one
